@@ -389,6 +389,13 @@ fn num_cmd(regs: &mut Regs, f: &[&str]) -> String {
             setreg(&mut regs.b, u(1), x, BigNum::zero());
             o
         }
+        "bconst" => {
+            // bconst K zero|one : the named constants
+            let x = if f[2] == "zero" { BigNum::zero() } else { BigNum::one() };
+            let o = big_obs(&x);
+            setreg(&mut regs.b, u(1), x, BigNum::zero());
+            o
+        }
         "bstr" => {
             // bstr K base text  (from_string_base)
             match BigNum::from_string_base(f[3].to_string(), u(2)) {
@@ -529,6 +536,13 @@ fn num_cmd(regs: &mut Regs, f: &[&str]) -> String {
         }
         "nnum" => {
             let x = Num::from_num(f[2].parse::<isize>().unwrap());
+            let o = num_obs(&x);
+            setreg(&mut regs.n, u(1), x, Num::zero());
+            o
+        }
+        "nconst" => {
+            // nconst K zero|one : the named constants
+            let x = if f[2] == "zero" { Num::zero() } else { Num::one() };
             let o = num_obs(&x);
             setreg(&mut regs.n, u(1), x, Num::zero());
             o
